@@ -91,7 +91,11 @@ func statAll(store *transactionOnly, paths []string) ([]hackpadfs.FileInfo, []er
 	errs := make([]error, len(paths))
 	results, err := getFileRecords(store, paths)
 	if err != nil {
-		return nil, []error{err}
+		// the look-up failed as a whole: every path has that error (callers index by path)
+		for i := range errs {
+			errs[i] = err
+		}
+		return infos, errs
 	}
 	for i := range paths {
 		path := paths[i]
